@@ -61,7 +61,12 @@ func Compile(grammar *Grammar, opts Options) (*Tables, error) {
 	if opts.MinimizeDFA {
 		minimize(c.out, grammar)
 	}
-	if opts.Optimize {
+	switch {
+	case opts.Optimize && c.out.UsedLADepth > 0:
+		// Conflicts resolved by LALR(k) lookahead leave nested lookahead tables in the Lalr list,
+		// which the displacement encoding cannot represent.
+		c.s.Errorf(grammar.Origin, "optimizeTables is not supported for grammars whose conflicts are resolved by LALR(k) lookahead, k > 1")
+	case opts.Optimize:
 		numRules := len(c.out.RuleLen) // takes into account runtime lookahead rules
 		c.out.Optimized = Optimize(c.out.DefaultEnc, grammar.Terminals, numRules, opts.DefaultReduce)
 	}
